@@ -79,9 +79,9 @@ fn meta_for(d: &Arc<Decl>) -> Arc<MetaSet> {
         }
         let set = match &d.body {
             DeclBody::Struct(r) => MetaSet { _keep: d.clone(), top: Arc::new(metadata_of(r)), cases: vec![] },
-            DeclBody::Enum { variants, .. } => MetaSet {
+            DeclBody::Enum { variants, steps, .. } => MetaSet {
                 _keep: d.clone(),
-                top: Arc::new(AdtMetadata::new(vec![Evolution::InitialVersion])),
+                top: Arc::new(metadata_of(&Record { fields: vec![], steps: steps.clone() })),
                 cases: variants.iter().map(|v| Arc::new(metadata_of(&v.record))).collect(),
             },
         };
@@ -114,10 +114,10 @@ impl DynAdt {
         let meta = meta_for(&self.decl);
         match &self.decl.body {
             DeclBody::Struct(r) => ser_record(r, &meta.top, &self.fields, ctx),
-            DeclBody::Enum { variants, .. } => {
+            DeclBody::Enum { variants, steps, .. } => {
                 let vi = self.variant.expect("enum value");
                 let var = &variants[vi];
-                let mut serializer = AdtSerializer::new_v0(&meta.top, ctx);
+                let mut serializer = if steps.is_empty() { AdtSerializer::new_v0(&meta.top, ctx) } else { AdtSerializer::new(&meta.top, ctx) };
                 if var.transient {
                     return Err(Error::SerializingTransientConstructor { type_name: self.decl.name.clone(), constructor_name: var.name.clone() });
                 }
